@@ -52,6 +52,8 @@ CHECKS = {
     'C15': ('path exploration of the real multiplicity on solver reals (positions in affine families over boxes, integer lattice shifts) with floor/round as to_int terms (QF_LIRA); grid points as exact binary64 inputs; orbit-stabiliser oracle from the ideal operators',
             'Model checking: for each setting the loop of multiplicity is unrolled by execution; every merge test is a solver decision valid for all positions of the family (x,y,z), (x,x,z), (x,2x,z), (x,-x,z) in the stated boxes with any lattice shift in [-2,2]^3; '
             'grid points (8 points x 3 shifts) are concrete runs against the exact oracle.', 'Quick tier: families only for groups with <= 16 operations and four larger sample groups.', '6/C15'),
+    'C14': ('differential symbolic execution: tools.f and laue.f run in one program on the same symbolic inputs, joint path exploration, result expressions compared by z3/cvc5 (QF_NRA / QF_LIA); genhkl_* and reduce_cell compared on a concrete sample (enumeration)',
+            'Bounded model checking of 41 function pairs over the input spaces of C01-C03/C09/C13 (exact reals, all paths up to the stated budgets); the 2*pi convention is applied to B-valued outputs and B/g-valued inputs.', 'Known finding: ubi_to_u_and_eps (strain) differs between the modules (see C13).', '6/C14'),
 }
 NA_REASON = {}
 
